@@ -1,22 +1,26 @@
 (* C14 — wake_not_lost: a completed wake-up request that has not yet been followed by the start
    of a wake callback keeps the signal readable (eventfd counter > 0 and, for the edge-triggered
-   epoll registration, the descriptor on the ready list), unless the loop thread is already
-   between the poll return that reported the signal and the start of the callback.  Hence a
-   poll attempt with an unserved request never finds nothing.  Requests may coalesce.
-   Holds for the code as first found and for the repaired code (any [c_fix_*]). *)
+   epoll registration, the descriptor on the ready list - or reported by the epoll_wait call whose
+   batch is being processed, with handle_wakeup still to come), unless the loop thread is already
+   between the clear-up of the signal and the start of the callback.  Hence a poll attempt with an
+   unserved request never finds nothing.  Requests may coalesce.
+   Holds for the code as first found and for the repaired code (any [c_fix_*]), whatever the
+   contexts' I/O, the callbacks' scripts and the timer. *)
 From MV Require Import C14.Model C14.ProofsBase.
 
 (* the loop is inside the while(1) of the back-end's run function *)
 Definition in_body (p : pc) : bool :=
   match p with
   | APoll | SRepoll | SPollRet | ARead | SWake | AWLock | SRel PhDrain _ | ARel PhDrain _
-  | AWUnlock | SWakeEnd => true
+  | AWUnlock | SWakeEnd | Cb _ | SRel PhClose _ | ARel PhClose _ => true
   | _ => false
   end.
-(* between a poll return that reported the signal and the start of cb_wake: no blocking
-   operation in between *)
+(* between the clear-up of the signal and the start of cb_wake: no blocking operation in between *)
 Definition served_soon (p : pc) : bool :=
-  match p with SPollRet | ARead | SWake => true | _ => false end.
+  match p with ARead | SWake => true | _ => false end.
+(* in the pass over the result of a poll call *)
+Definition in_pass (p : pc) : bool :=
+  match p with SPollRet | SRel PhClose (Some _) | ARel PhClose _ => true | _ => false end.
 
 (* the thread has not yet called muggle_evloop_run *)
 Definition prerun (p : pc) : bool :=
@@ -26,45 +30,167 @@ Definition prerun (p : pc) : bool :=
   end.
 
 Definition armed (C : config) (c : nat) (e : bool) : Prop := 0 < c /\ (c_be C = BEpoll -> e = true).
+(* the poll call whose result is being processed reported the signal and the pass has not reached
+   handle_wakeup yet *)
+Definition sig_pending (s : sys) : Prop := psig s = true /\ In None (todo s).
+Definition armed_p (C : config) (s : sys) : Prop :=
+  0 < cnt s /\ (c_be C = BEpoll -> edge s = true \/ sig_pending s).
 
 (* what an unserved request guarantees, by program point of the loop thread *)
-Definition wk_ok (C : config) (c : nat) (e : bool) (p : pc) : Prop :=
+Definition wk_ok (C : config) (s : sys) (p : pc) : Prop :=
   match p with
-  | SStart | AYield _ | SOp _ | AWrite _ | STail _ | AHLock _ _ | SHEnq _ _ | AHUnlock _ | SHW _ => 0 < c
-  | APoll | SRepoll | AWLock | SRel PhDrain _ | ARel PhDrain _ | AWUnlock | SWakeEnd => armed C c e
+  | SStart | AYield _ | SOp _ | AWrite _ | STail _ | AHLock _ _ | SHEnq _ _ | AHUnlock _ | SHW _ => 0 < cnt s
+  | APoll | SRepoll | AWLock | SRel PhDrain _ | ARel PhDrain _ | AWUnlock | SWakeEnd | Cb _
+  | SRel PhClose None => armed C (cnt s) (edge s)
+  | SPollRet | SRel PhClose (Some _) | ARel PhClose _ => armed_p C s
   | _ => True
   end.
 
 Definition WInv (C : config) (s : sys) : Prop :=
   w_seen s <= w_req s /\
-  (w_seen s < w_req s -> wk_ok C (cnt s) (edge s) (thr s (c_loop C))).
+  (w_seen s < w_req s -> wk_ok C s (thr s (c_loop C))).
 
-Lemma wk_ok_written C c p : wk_ok C (S c) true p.
+Lemma armed_armed_p C s : armed C (cnt s) (edge s) -> armed_p C s.
+Proof. intros [H1 H2]. split; [exact H1|]. intros E. left. auto. Qed.
+
+Lemma wk_ok_of_armed C s p : armed C (cnt s) (edge s) -> wk_ok C s p.
 Proof.
-  destruct p; simpl; try exact I; try lia; try (split; [lia|reflexivity]);
-    destruct ph; simpl; try exact I; split; (lia || reflexivity).
+  intros A. pose proof (armed_armed_p C s A) as A'. destruct A as [A1 A2].
+  destruct p as [| | | | | | | | | | | | | | |ph [i|]|ph i| | | | | | | |]; simpl; auto; try (split; assumption);
+    destruct ph; simpl; auto; split; assumption.
+Qed.
+
+Lemma wk_ok_frame C s s' p : cnt s' = cnt s -> edge s' = edge s -> psig s' = psig s -> todo s' = todo s ->
+  wk_ok C s p -> wk_ok C s' p.
+Proof.
+  intros E1 E2 E3 E4. unfold wk_ok, armed_p, armed, sig_pending. rewrite E1, E2, E3, E4. auto.
 Qed.
 
 Lemma init_winv C : WInv C init.
 Proof. split; simpl; lia. Qed.
 
+(* ---- the tail segments ---- *)
+Lemma exit_test_wk C s t ns s' l : armed C (cnt s) (edge s) -> exit_test C s t ns = Some (s', l) ->
+  wk_ok C s' (thr s' t).
+Proof.
+  intros A H. apply exit_test_frame in H. destruct H as (F & _ & _ & _ & P).
+  apply wk_ok_of_armed. rewrite (tf_cnt _ _ _ F), (tf_edge _ _ _ F). exact A.
+Qed.
+
+Lemma fin_pass_wk C s t ns s' l : armed C (cnt s) (edge s) -> fin_pass C s t ns = Some (s', l) ->
+  wk_ok C s' (thr s' t).
+Proof.
+  intros A H. apply fin_pass_frame in H. destruct H as (F & _ & _ & _ & P).
+  apply wk_ok_of_armed. rewrite (tf_cnt _ _ _ F), (tf_edge _ _ _ F). exact A.
+Qed.
+
+Lemma seg_pass_wk C s t ns s' l : armed_p C s -> seg_pass C s t ns = Some (s', l) -> wk_ok C s' (thr s' t).
+Proof.
+  intros [A1 A2] H. unfold seg_pass in H.
+  destruct (pass C (hup s) (peof s) (rdy s) (rdh s) (psig s) (pn s) (todo s) ns []) as [[[[n td] r] ns'] dr] eqn:E.
+  destruct r as [|id|].
+  - inversion H; subst; clear H. rewrite thr_set_pc_same. exact I.
+  - inversion H; subst; clear H. rewrite thr_set_pc_same. simpl. unfold armed_p, sig_pending. nrmg.
+    split; [exact A1|]. intros Eb. destruct (A2 Eb) as [K|[K1 K2]]; [left; exact K|right].
+    split; [exact K1|]. rewrite K1 in E. eapply pass_close_keeps_none; eauto.
+  - eapply fin_pass_wk; [|exact H]. nrmg. split; [exact A1|]. intros Eb.
+    destruct (A2 Eb) as [K|[K1 K2]]; [exact K|].
+    rewrite K1 in E. apply pass_end_none_poll in E; [congruence|exact K2].
+Qed.
+
+Lemma wake_end_wk C s t ns s' l : armed C (cnt s) (edge s) -> wake_end C s t ns = Some (s', l) ->
+  wk_ok C s' (thr s' t).
+Proof.
+  intros A H. unfold wake_end in H. eapply seg_pass_wk; [|exact H].
+  apply armed_armed_p. nrmg. exact A.
+Qed.
+
+Lemma cb_end_wk C s t ns s' l : armed C (cnt s) (edge s) -> cb_end C s t ns = Some (s', l) ->
+  wk_ok C s' (thr s' t).
+Proof.
+  intros A H. unfold cb_end in H. destruct (cbk s); [eapply exit_test_wk|eapply wake_end_wk]; eauto.
+Qed.
+
+Lemma cb_next_wk C s t k ns s' l : armed C (cnt s) (edge s) -> cb_next C s t k ns = Some (s', l) ->
+  wk_ok C s' (thr s' t).
+Proof.
+  intros A H. unfold cb_next in H. destruct (S k <? length (cbs s)).
+  - inversion H; subst; clear H. rewrite thr_set_pc_same. simpl. nrmg. exact A.
+  - eapply cb_end_wk; eauto.
+Qed.
+
+(* ---- steps of the other threads: the signal is only ever written ---- *)
+Lemma step_other_sig C s t ch s' l : BInv C s -> t <> c_loop C -> step C s t ch = Some (s', l) ->
+  thr s' (c_loop C) = thr s (c_loop C) /\ psig s' = psig s /\ todo s' = todo s /\ w_seen s' = w_seen s /\
+  ((cnt s' = cnt s /\ edge s' = edge s /\ w_req s' = w_req s) \/
+   (cnt s' = S (cnt s) /\ edge s' = true /\ w_req s' = S (w_req s))).
+Proof.
+  intros B Hne Hs. pose proof (b_loop _ _ B t) as Hl.
+  step_inv Hs.
+  all: simpl in Hl; try (exfalso; apply Hne; apply Hl; reflexivity).
+  all: try (exfalso; apply Hne; apply Nat.eqb_eq; assumption).
+  all: nrmg; rewrite upd_other by (intros E; apply Hne; symmetry; exact E).
+  all: repeat split; auto.
+Qed.
+
 Lemma step_winv C s t ch s' l : BInv C s -> WInv C s -> step C s t ch = Some (s', l) -> WInv C s'.
 Proof.
-  intros B [Hle Hw] Hs. pose proof (b_loop _ _ B t) as Hl.
+  intros B [Hle Hw] Hs.
+  destruct (Nat.eq_dec t (c_loop C)) as [e|ne].
+  2: { (* another thread *)
+    destruct (step_other_sig C s t ch s' l B ne Hs) as (Ep & E1 & E2 & E3 & [(E4 & E5 & E6)|(E4 & E5 & E6)]).
+    - split; [lia|]. intros Hlt. rewrite Ep. eapply wk_ok_frame; eauto. apply Hw. lia.
+    - split; [lia|]. intros _. rewrite Ep. apply wk_ok_of_armed. rewrite E4, E5. split; [lia|reflexivity]. }
+  (* the loop thread *)
+  subst t.
   step_inv Hs.
-  all: simpl in Hl.
-  all: unfold WInv, set_pc; simpl; unfold upd.
-  all: destruct (Nat.eqb_spec (c_loop C) t) as [e|ne];
-    [ rewrite e in *; match goal with E : thr _ ?t0 = _ |- _ => rewrite E in Hw; simpl in Hw end
-    | try (exfalso; apply ne; symmetry; apply Hl; reflexivity) ].
-  (* another thread's step that does not touch the signal *)
-  all: try exact (conj Hle Hw).
-  (* a write: the signal is readable and on the ready list *)
-  all: try (split; [lia | intros _; apply wk_ok_written]).
-  all: repeat match goal with ph : phase |- _ => destruct ph end; simpl in *.
-  all: try (split; [lia | intros Hlt; first [ exact I | lia | apply Hw; lia | split; [lia | reflexivity ] ] ]).
-  - split; [lia | intros Hlt; specialize (Hw Hlt); split; [lia | intros _; apply Nat.ltb_lt; lia] ].
-  - exfalso; apply ne. symmetry. apply Nat.eqb_eq. assumption.
+  all: repeat match goal with ph : phase |- _ => destruct ph end.
+  all: simpl in Hw.
+  (* tails *)
+  all: try (match goal with H : cb_next _ ?s1 _ _ _ = Some _ |- _ =>
+              pose proof (cb_next_frame _ _ _ _ _ _ _ H) as (F & _ & _);
+              split; [rewrite (tf_w_seen _ _ _ F), (tf_w_req _ _ _ F); nrmg; lia|];
+              intros Hlt; rewrite (tf_w_seen _ _ _ F), (tf_w_req _ _ _ F) in Hlt; nrmh Hlt;
+              eapply cb_next_wk; [|exact H]; nrmg; first [apply Hw; lia | split; [lia|reflexivity] ] end; fail).
+  all: try (match goal with H : cb_end _ ?s1 _ _ = Some _ |- _ =>
+              pose proof (cb_end_frame _ _ _ _ _ _ H) as (F & _ & _);
+              split; [rewrite (tf_w_seen _ _ _ F), (tf_w_req _ _ _ F); nrmg; lia|];
+              intros Hlt; rewrite (tf_w_seen _ _ _ F), (tf_w_req _ _ _ F) in Hlt; nrmh Hlt;
+              eapply cb_end_wk; [|exact H]; nrmg; apply Hw; lia end; fail).
+  all: try (match goal with H : wake_end _ ?s1 _ _ = Some _ |- _ =>
+              pose proof (wake_end_frame _ _ _ _ _ _ H) as (F & _ & _);
+              split; [rewrite (tf_w_seen _ _ _ F), (tf_w_req _ _ _ F); nrmg; lia|];
+              intros Hlt; rewrite (tf_w_seen _ _ _ F), (tf_w_req _ _ _ F) in Hlt; nrmh Hlt;
+              eapply wake_end_wk; [|exact H]; nrmg; apply Hw; lia end; fail).
+  all: try (match goal with H : fin_pass _ ?s1 _ _ = Some _ |- _ =>
+              pose proof (fin_pass_frame _ _ _ _ _ _ H) as (F & _ & _);
+              split; [rewrite (tf_w_seen _ _ _ F), (tf_w_req _ _ _ F); nrmg; lia|];
+              intros Hlt; rewrite (tf_w_seen _ _ _ F), (tf_w_req _ _ _ F) in Hlt; nrmh Hlt;
+              first [ lia
+                    | eapply fin_pass_wk; [|exact H]; nrmg;
+                      first [ apply Hw; lia
+                            | (* after a close, poll back-end: n <= 0 *)
+                              destruct (Hw ltac:(lia)) as [A1 A2]; split; [exact A1|];
+                              intros Eb; exfalso; unfold poll_done in *; rewrite Eb in *; discriminate ] ] end; fail).
+  all: try (match goal with H : seg_pass _ ?s1 _ _ = Some _ |- _ =>
+              pose proof (seg_pass_frame _ _ _ _ _ _ H) as (F & _ & _);
+              split; [rewrite (tf_w_seen _ _ _ F), (tf_w_req _ _ _ F); nrmg; lia|];
+              intros Hlt; rewrite (tf_w_seen _ _ _ F), (tf_w_req _ _ _ F) in Hlt; nrmh Hlt;
+              eapply seg_pass_wk; [|exact H]; unfold armed_p, sig_pending in *; nrmg; apply Hw; lia end; fail).
+  (* explicit steps *)
+  all: unfold WInv; nrmg; rewrite ?upd_same; cbn [wk_ok]; nrmg.
+  all: try (split; [lia|]; intros Hlt; first [exact I | lia | apply Hw; lia ]; fail).
+  (* a write by the loop thread itself *)
+  all: try (split; [lia|]; intros _; first [lia | split; [lia|reflexivity] ]; fail).
+  - (* run() starts: the epoll registration finds the signal readable *)
+    split; [lia|]. intros Hlt. specialize (Hw Hlt). split; [lia|]. intros _. apply Nat.ltb_lt. lia.
+  - (* a poll call that reports something *)
+    split; [lia|]. intros Hlt. specialize (Hw Hlt). destruct Hw as [A1 A2].
+    assert (R : ready C s = true).
+    { unfold ready. assert (Nat.ltb 0 (cnt s) = true) by (apply Nat.ltb_lt; lia).
+      destruct (c_be C) eqn:Eb; auto. rewrite A2 by reflexivity. simpl. assumption. }
+    unfold armed_p, sig_pending. nrmg. rewrite R. split; [exact A1|]. intros Eb. right. split; [reflexivity|].
+    unfold pass_plan. rewrite Eb. unfold ins_sig. apply in_or_app. right. left. reflexivity.
 Qed.
 
 Theorem winv_all C sched : WInv C (exec sys (step C) init sched).
@@ -83,38 +209,57 @@ Proof.
 Qed.
 
 (* requests are counted: [w_req] completed wake-up requests (writes of the signal by wakeup,
-   hand-over or exit), [w_seen] = value of [w_req] when the most recent wake callback started.
-   An unserved request exists iff w_seen < w_req. *)
+   hand-over or exit, from any thread including the loop thread's callbacks), [w_seen] = value of
+   [w_req] when the most recent wake callback started.  An unserved request exists iff
+   w_seen < w_req. *)
 Theorem wake_not_lost_all C sched :
   let s := exec sys (step C) init sched in
   w_seen s <= w_req s /\
   (w_seen s < w_req s ->
    (* before run(): the counter stays positive until the loop registers and polls *)
    (prerun (thr s (c_loop C)) = true -> 0 < cnt s) /\
-   (* inside the loop: a wake callback is about to start, or the next poll reports the signal *)
+   (* inside the loop: a wake callback is about to start, or the signal has been reported by the
+      poll call whose result is being processed and handle_wakeup is still to come (epoll), or the
+      next poll attempt reports the signal *)
    (in_body (thr s (c_loop C)) = true ->
-    served_soon (thr s (c_loop C)) = true \/ ready C s = true)).
+    served_soon (thr s (c_loop C)) = true \/
+    (in_pass (thr s (c_loop C)) = true /\ c_be C = BEpoll /\ sig_pending s) \/
+    ready C s = true)).
 Proof.
   intros s. destruct (winv_all C sched) as [Hle Hw]. fold s in Hle, Hw. split; [exact Hle|].
   intros Hlt. specialize (Hw Hlt). split.
   - intros Hb. destruct (thr s (c_loop C)); simpl in *; try discriminate; try exact Hw.
-  - intros Hb. destruct (thr s (c_loop C)) as [| | | | | | | | | | | | | | |ph ?|ph ?| | | | | | |];
-      simpl in *; try discriminate; try (left; reflexivity); try (right; apply armed_ready; exact Hw);
-      destruct ph; simpl in *; try discriminate; right; apply armed_ready; exact Hw.
+  - intros Hb.
+    assert (Hp : armed_p C s -> (c_be C = BEpoll /\ sig_pending s) \/ ready C s = true).
+    { intros [A1 A2]. destruct (c_be C) eqn:Eb.
+      - right. unfold ready. rewrite Eb. apply Nat.ltb_lt. exact A1.
+      - right. unfold ready. rewrite Eb. apply Nat.ltb_lt. exact A1.
+      - destruct (A2 eq_refl) as [K|K]; [right|left; auto].
+        unfold ready. rewrite Eb, K. simpl. apply Nat.ltb_lt. exact A1. }
+    destruct (thr s (c_loop C)); simpl in *; try discriminate;
+      repeat match goal with ph : phase |- _ => destruct ph | o : option nat |- _ => destruct o end;
+      simpl in *; try discriminate;
+      first [ left; reflexivity | right; right; apply armed_ready; exact Hw
+            | destruct (Hp Hw) as [K|K]; [right; left; split; [reflexivity|exact K]|right; right; exact K] ].
 Qed.
 
-(* consequence: with an unserved request the loop never goes to sleep — a poll attempt returns
+(* consequence: with an unserved request the loop never goes to sleep — a poll attempt reports
    the signal *)
 Corollary wake_poll_never_sleeps C sched :
   let s := exec sys (step C) init sched in
   w_seen s < w_req s -> thr s (c_loop C) = APoll ->
-  exists s', step C s (c_loop C) 0 = Some (s', ev_poll true).
+  forall ch, exists s' n, step C s (c_loop C) ch = Some (s', ev_poll true n) /\ 0 < n /\ thr s' (c_loop C) = SPollRet /\
+                          sig_pending s'.
 Proof.
-  intros s Hlt Hp. pose proof (binv_all C sched) as B. fold s in B.
+  intros s Hlt Hp ch. pose proof (binv_all C sched) as B. fold s in B.
   destruct (winv_all C sched) as [_ Hw]. fold s in Hw. specialize (Hw Hlt). rewrite Hp in Hw. simpl in Hw.
   destruct (b_valid _ _ B (c_loop C)) as [Hn Hc]; [rewrite Hp; discriminate|].
   unfold step. rewrite Hn, Hc, Hp. rewrite Bool.orb_true_r. simpl.
-  rewrite (armed_ready C s Hw). eexists; reflexivity.
+  rewrite (armed_ready C s Hw). simpl. eexists. eexists. split; [reflexivity|]. split; [lia|].
+  split; [apply thr_set_pc_same|]. unfold sig_pending. nrmg. split; [reflexivity|].
+  unfold pass_plan. destruct (c_be C); simpl; auto.
+  - apply in_or_app. right. left. reflexivity.
+  - unfold ins_sig. apply in_or_app. right. left. reflexivity.
 Qed.
 
 (* non-vacuity: a wake-up issued between the loop's clear-up and its next poll (epoll back-end) *)
@@ -126,4 +271,3 @@ Example wake_window_example :
      (0,0);(0,0);(0,0);(1,0)] in
   thr s 1 = APoll /\ w_seen s < w_req s /\ ready C s = true.
 Proof. vm_compute. repeat split; lia. Qed.
-
